@@ -400,6 +400,15 @@ class Ptr:
 NULL = Ptr(None, Lin.const(0))
 
 
+class Clobbered:
+    """value of a member whose bytes were overwritten through the array it overlays"""
+    def __repr__(self):
+        return "<overwritten>"
+
+
+CLOBBERED = Clobbered()
+
+
 class ObjPtr:
     """pointer to a struct object (or to a sub-object: prefix ends with '.'); boff = byte displacement (container_of)"""
     __slots__ = ("obj", "prefix", "maybe_null", "boff")
@@ -576,6 +585,7 @@ class LinAnalysis:
         self.post = {}            # function name -> post(...) used at call sites instead of the body
         self._wants = {}
         self.max_returns = 10
+        self.track_writes = False   # remember how far writes into each area reached (USEDCOVER)
         self.flex = {}             # record -> (member array, bytes before it): inline area that extends to the end of the allocation
         self.state_budget = None   # deterministic cut: number of block states processed
         self.over_budget = False
@@ -819,6 +829,19 @@ class LinAnalysis:
         """[ptr, ptr+n) inside its region"""
         if isinstance(ptr, MemLoc):
             ptr = Ptr(ptr.region, ptr.off, ptr.maybe_null)
+        if what == "write of data" and isinstance(ptr, Ptr) and ptr.region is not None and self.track_writes and isinstance(n, Lin):
+            if not st.entails_eq(n, Lin.const(0)):
+                k = ("written", ptr.region.id)
+                ends = st.env.get(k, ())
+                end = ptr.off + n
+                if not any(st.entails(x[0] - end) for x in ends) and len(ends) < 6:
+                    st.env[k] = ends + ((end, show(e, fr.f)[:60] if isinstance(e, dict) else "", fr.f.name),)
+        if what.startswith("write") and isinstance(ptr, Ptr) and ptr.region is not None:
+            ov = st.env.get(("overlay", ptr.region.id))
+            if ov is not None and isinstance(n, Lin):
+                obj, prefix, declared, member = ov
+                if not st.entails_eq(n, Lin.const(0)) and not st.entails(Lin.const(declared) - ptr.off - n):
+                    st.env[("f", obj, prefix + member)] = CLOBBERED      # the write may run over the member behind the array
         if not isinstance(ptr, Ptr) or ptr.region is None:
             self.stats["unknown_ptr_access"] = self.stats.get("unknown_ptr_access", 0) + 1
             return
@@ -913,7 +936,11 @@ class LinAnalysis:
         if loc[0] == "o":
             return StructVal(loc[1], loc[2], self.record_of(fr.f, e.get("t")))
         if loc in st.env:
-            return st.env[loc]
+            v = st.env[loc]
+            if v is CLOBBERED:
+                self.oblige("OVERLAY", fr, e, False, "%s is read after a write through the inline array in front of it may have overwritten it; path: %s" % (loc[2], " / ".join(st.trail[-8:])), st)
+                return None
+            return v
         rec = self.record_of(fr.f, e.get("t"))
         if rec:
             if loc[0] == "v":
@@ -1671,7 +1698,7 @@ class LinAnalysis:
         if base in COPY_FUNCS and len(args) >= 3:
             di, si, ni, strict = COPY_FUNCS[base]
             n = args[ni]
-            self.check_access(st, fr, e, args[di], n, "write of")
+            self.check_access(st, fr, e, args[di], n, "write of data")
             self.check_access(st, fr, e, args[si], n, "read of")
             d, s = args[di], args[si]
             if strict and isinstance(d, Ptr) and isinstance(s, Ptr) and d.region is s.region and d.region is not None and isinstance(n, Lin):
